@@ -934,6 +934,94 @@ func (c *c17Run) directed() {
 	c.deliverSend("directed-send", "native send to an eth account", c.w.Users[0], c.ek[5].Addr, "50000000000000", 1000000)
 	dl("directed-after-native-credit", c.ek[5], &f0, 0, big.NewInt(1), 21000, nil, 0)
 	c.endBlock()
+	// in-block interference through the block-long CommitStateDB: an OLVM transaction of A that passes
+	// Validate but fails its pre-check (nonce ahead), then native credits of A, then OLVM from / to A
+	e3 := c.ek[3]
+	u0, u1 := c.w.Users[0], c.w.Users[1]
+	a3 := e3.Addr
+	c.beginBlock()
+	dl("directed-seq-precheck-fail", e3, &f0, c.stNonce(a3)+1, big.NewInt(9), 21000, nil, 0)
+	c.deliverSend("directed-seq-native-credit", "native credit of the failed sender", u0, a3, "123456789", 1000000)
+	dl("directed-seq-olvm-from", e3, &f0, c.stNonce(a3), big.NewInt(7), 21000, nil, 0)
+	dl("directed-seq-precheck-fail", e3, nil, c.stNonce(a3)+2, zero, 200000, c17Deployer(c17RtStop), 0)
+	c.rep.CheckTx(c17TxOLVM(e0, &f0, c.stNonce(e0.Addr), big.NewInt(1), c17Gwei, 21000, nil, c.chain, c.chain, strconv.FormatUint(c.stNonce(e0.Addr), 10), 77))
+	c.deliverSend("directed-seq-native-credit", "native credit of the failed sender", u1, a3, "55555", 1000000)
+	c.deliverSend("directed-seq-native-credit", "native credit of the failed sender", u0, a3, "44444", 1000000)
+	dl("directed-seq-olvm-to", e0, &a3, c.stNonce(e0.Addr), big.NewInt(31), 21000, nil, 0)
+	dl("directed-seq-olvm-from", e3, nil, c.stNonce(a3), big.NewInt(3), 200000, c17Deployer(c17RtStop), 0)
+	c.endBlock()
+	// the same three steps split over blocks (control)
+	c.beginBlock()
+	dl("directed-seq-precheck-fail", e3, &f0, c.stNonce(a3)+1, big.NewInt(9), 21000, nil, 0)
+	c.endBlock()
+	c.beginBlock()
+	c.deliverSend("directed-seq-native-credit", "native credit, next block", u0, a3, "777", 1000000)
+	c.endBlock()
+	c.beginBlock()
+	dl("directed-seq-olvm-from", e3, &f0, c.stNonce(a3), big.NewInt(7), 21000, nil, 0)
+	c.endBlock()
+}
+
+// genStaleSeq: inside the current block — OLVM of A that passes Validate but fails its pre-check,
+// (optional CheckTx traffic), native SENDs crediting A (and others), then OLVM from A and/or to A.
+// The application keeps one CommitStateDB per block: nothing of the failed transaction may survive.
+func (c *c17Run) genStaleSeq() {
+	r := c.r
+	A := c.ek[r.Intn(5)]
+	a := A.Addr
+	f := c.fresh[r.Intn(len(c.fresh))]
+	n := c.stNonce(a)
+	ahead := n + uint64(1+r.Intn(3))
+	// 1: fails the pre-check (nonce ahead of the account's), in one of three shapes
+	switch r.Intn(3) {
+	case 0:
+		c.deliverOLVM("seq-precheck-fail|transfer", "nonce ahead", A, a, &f, ahead, big.NewInt(int64(r.Intn(100))), c17Gwei, 21000, nil, c.chain, c.chain, strconv.FormatUint(ahead, 10), 0, nil, nil)
+	case 1:
+		c.deliverOLVM("seq-precheck-fail|create", "nonce ahead", A, a, nil, ahead, big.NewInt(0), c17Gwei, 200000, c17Deployer(c17RtStop), c.chain, c.chain, strconv.FormatUint(ahead, 10), 0, nil, nil)
+	default:
+		to := c.anyAddr()
+		c.deliverOLVM("seq-precheck-fail|call", "nonce ahead", A, a, &to, ahead, big.NewInt(0), c17Gwei, 100000, []byte{1}, c.chain, c.chain, strconv.FormatUint(ahead, 10), 0, c.contractAt(to), nil)
+	}
+	if r.Intn(2) == 0 { // mempool traffic in between
+		k := c.ek[r.Intn(4)]
+		kn := c.stNonce(k.Addr)
+		c.rep.CheckTx(c17TxOLVM(k, &f, kn, big.NewInt(1), c17Gwei, 21000, nil, c.chain, c.chain, strconv.FormatUint(kn, 10), int64(1000+r.Intn(1000))))
+	}
+	// 2: native changes of A's balance (SEND can only credit an eth-key account: its key cannot sign
+	// native transactions), mixed with sends elsewhere and failing sends
+	for i, k := 0, 1+r.Intn(3); i < k; i++ {
+		u := c.w.Users[r.Intn(len(c.w.Users))]
+		switch r.Intn(5) {
+		case 0:
+			c.deliverSend("seq-native-other", "native send elsewhere", u, c.anyAddr(), strconv.Itoa(1+r.Intn(100000)), 1000000)
+		case 1:
+			c.deliverSend("seq-native-credit-fails", "native credit that fails", u, a, "3000000000000000000000000", 1000000)
+		default:
+			c.deliverSend("seq-native-credit", "native credit of the failed sender", u, a, strconv.Itoa(1+r.Intn(1000000000)), 1000000)
+		}
+	}
+	// 3: OLVM from A and/or to A
+	m := r.Intn(4)
+	if m != 1 {
+		n = c.stNonce(a)
+		switch r.Intn(3) {
+		case 0:
+			c.deliverOLVM("seq-olvm-from|transfer", "after native credit", A, a, &f, n, big.NewInt(int64(r.Intn(1000))), c17Gwei, 21000, nil, c.chain, c.chain, strconv.FormatUint(n, 10), 0, nil, nil)
+		case 1:
+			c.deliverOLVM("seq-olvm-from|create", "after native credit", A, a, nil, n, big.NewInt(int64(r.Intn(3)*5000)), c17Gwei, 200000, c17Deployer(c17RtToggle), c.chain, c.chain, strconv.FormatUint(n, 10), 0, nil, nil)
+		default:
+			to := c.anyAddr()
+			c.deliverOLVM("seq-olvm-from|call", "after native credit", A, a, &to, n, big.NewInt(int64(r.Intn(3)*7)), c17Gwei, 100000, nil, c.chain, c.chain, strconv.FormatUint(n, 10), 0, c.contractAt(to), nil)
+		}
+	}
+	if m != 0 {
+		B := c.ek[r.Intn(4)]
+		if c17AddrKey(B.Addr) == c17AddrKey(a) {
+			B = c.ek[(c.ekIndex(a)+1)%4]
+		}
+		bn := c.stNonce(B.Addr)
+		c.deliverOLVM("seq-olvm-to|transfer", "value to the failed sender", B, B.Addr, &a, bn, big.NewInt(int64(1+r.Intn(1000))), c17Gwei, 21000, nil, c.chain, c.chain, strconv.FormatUint(bn, 10), 0, nil, nil)
+	}
 }
 
 // ---------------------------------------------------------------------------------------------
@@ -1058,6 +1146,8 @@ func c17Main(args []string) int {
 				c.genReplay()
 			case 1:
 				c.genIdentical()
+			case 2:
+				c.genStaleSeq()
 			default:
 				c.genStep()
 			}
